@@ -37,6 +37,10 @@ func (vr *TestDownstreamEncoderRequest) Decode(e enc.Encoder, req []byte) error 
 		req = rem
 	}
 
+	if len(req) < 1 {
+		return errors.Errorf("No encoder code in downstream encoder request")
+	}
+
 	var err error
 	vr.DownstreamEncoder, err = enc.FromCode(req[0])
 	if err != nil {
